@@ -7,6 +7,7 @@ import (
 	"fmt"
 	"os"
 	"strconv"
+	"strings"
 	"sync"
 
 	"github.com/xelaj/mtproto/telegram/verifh/refsrv"
@@ -21,6 +22,16 @@ func main() {
 		wg.Add(1)
 		go func(i int) {
 			defer wg.Done()
+			if len(os.Args) > 3 {
+				// genkeys <from> <n> <e1,e2,...>: key i gets exponent i mod len
+				var exps []int
+				for _, f := range strings.Split(os.Args[3], ",") {
+					e, _ := strconv.Atoi(f)
+					exps = append(exps, e)
+				}
+				keys[i] = refsrv.GenerateRSAExp(uint64(from+i), exps[i%len(exps)]).JSON()
+				return
+			}
 			keys[i] = refsrv.GenerateRSA(uint64(from + i)).JSON()
 		}(i)
 	}
